@@ -1047,6 +1047,7 @@ func (pc *PeerConnection) setDescription(sd *SessionDescription, op stateChangeO
 				nextState, err = checkNextSignalingState(cur, SignalingStateStable, setLocal, sd.Type)
 				if err == nil {
 					pc.pendingLocalDescription = nil
+					pc.pendingRemoteDescription = nil
 				}
 			// have-remote-offer->SetLocal(pranswer)->have-local-pranswer
 			case SDPTypePranswer:
@@ -1082,6 +1083,7 @@ func (pc *PeerConnection) setDescription(sd *SessionDescription, op stateChangeO
 				nextState, err = checkNextSignalingState(cur, SignalingStateStable, setRemote, sd.Type)
 				if err == nil {
 					pc.pendingRemoteDescription = nil
+					pc.pendingLocalDescription = nil
 				}
 			// have-local-offer->SetRemote(pranswer)->have-remote-pranswer
 			case SDPTypePranswer:
@@ -1122,6 +1124,11 @@ func (pc *PeerConnection) SetLocalDescription(desc SessionDescription) error {
 	}
 
 	haveLocalDescription := pc.currentLocalDescription != nil
+
+	// A rollback carries no description to apply, its SDP (if any) is ignored.
+	if desc.Type == SDPTypeRollback {
+		return pc.setDescription(&desc, stateChangeOpSetLocal)
+	}
 
 	// JSEP 5.4
 	if desc.SDP == "" {
@@ -1195,6 +1202,11 @@ func (pc *PeerConnection) SetRemoteDescription(desc SessionDescription) error {
 	}
 
 	isRenegotiation := pc.currentRemoteDescription != nil
+
+	// A rollback carries no description to apply, its SDP (if any) is ignored.
+	if desc.Type == SDPTypeRollback {
+		return pc.setDescription(&desc, stateChangeOpSetRemote)
+	}
 
 	if _, err := desc.Unmarshal(); err != nil {
 		return err
